@@ -2,5 +2,7 @@
 package all
 
 import (
+	_ "verif/harness/c02"
+	_ "verif/harness/c07"
 	_ "verif/harness/c13"
 )
